@@ -397,6 +397,13 @@ package plenccodec
 //@   loop 2 invariant[C04] 0 <= offset && offset <= len(data) && 0 <= i
 //@   loop 2 decreases loadi64(ptr + 8) - i
 //@   ensures[C04,C05] err == nil ==> 0 <= n && n <= len(data)
+//@   # the counted form: the decoded slice holds exactly the encoded number of elements whatever the target held before
+//@   # (the length is set to the count before the first element is read), element i is decoded into slot i, and
+//@   # success is reported only when every element has been read
+//@   loop 2 entry[C10,C01] loadi64(ptr + 8) == int(count) && int(count) <= loadi64(ptr + 16)
+//@   loop 2 step[C10,C01] called_Codec_Read && call_Codec_Read_arg2 == loadptr(ptr) + head_i * int(c.EltSize) && call_Codec_Read_arg0 == c.Underlying && i == head_i + 1
+//@   loop 1 step[C10] called_typedmemclr && call_typedmemclr_arg1 == loadptr(ptr) + head_i * int(c.EltSize) && i == head_i + 1
+//@   ensures[C10,C01] wt != 2 && err == nil ==> loopdone_2
 
 //@ func plenccodec.WTLengthSliceWrapper.readAsWTLength
 //@   safety C04 C11
